@@ -541,7 +541,7 @@ def _gen_sandwich_plan(S, k, header, queries):
 
 
 POISON_SPOTS = ['first', 'last', 'cterm']
-ANN_RETURNING = {'ann.copy', 'ann.slice', 'ann.shift', 'ann.reverse', 'ann.shuffle_seeded', 'ann.sort_residues',
+ANN_RETURNING = {'ann.copy', 'ann.py_deepcopy', 'ann.py_pickle', 'ann.slice', 'ann.shift', 'ann.reverse', 'ann.shuffle_seeded', 'ann.sort_residues',
                  'ann.strip', 'ann.condense_static_mods', 'apply_static_mods', 'apply_variable_mods',
                  'create_annotation', 'ann.permutations', 'ann.combinations', 'ann.product',
                  'ann.combinations_with_replacement'}
@@ -698,7 +698,7 @@ def _gen_random_plan(S, header, tier):
             # the client edits, in place, a list / dictionary / config object of its own that it has been passing to
             # calls and goes on passing the same object: later calls must see the new content, nothing stale
             used = sorted(set(a['h'] for e in events if e['act'] == 'call' for a in e['args'].values()
-                              if 'h' in a and a['h'][0] not in 'AS'))
+                              if 'h' in a and a['h'][0] != 'S'))
             if used:
                 events.append({'act': 'owneredit', 'client': client, 'h': S.pick(used), 'k': S.randint(0, 999)})
             continue
@@ -1169,6 +1169,30 @@ def _owner_edit(obj, k):
     if isinstance(obj, pt.EnzymeConfig):
         obj.missed_cleavages = (obj.missed_cleavages or 0) + 1
         return 'enzcfg.missed_cleavages+1'
+    if isinstance(obj, pt.ProFormaAnnotation):
+        # the owner reaches into its annotation through the field accessors (references by design) and edits a
+        # container or a Mod in place - no setter, no add_*/pop_* method is involved
+        nodes = [v for v in N.mutable_nodes(obj).values() if v is not obj and not isinstance(v, pt.Interval)]
+        nodes = [v for v in nodes if not isinstance(v, (list, dict)) or v]
+        if not nodes:
+            return None
+        node = nodes[k % len(nodes)]
+        if isinstance(node, pt.Mod):
+            node.mult = node.mult + 1
+            return 'ann:mod.mult+1'
+        if isinstance(node, list):
+            if (k // 7) % 2 and len(node) > 1:
+                del node[-1]
+                return 'ann:list.del-last'
+            node.append(copy.deepcopy(node[0]))
+            return 'ann:list.append-copy-of-first'
+        if isinstance(node, dict):
+            first = next(iter(node))
+            if (k // 7) % 2 and len(node) > 1:
+                node.pop(list(node)[-1])
+                return 'ann:dict.pop-last'
+            node[first] = node.pop(first)
+            return 'ann:dict.first-moved-to-end'
     return None
 
 
